@@ -911,6 +911,13 @@ func (ex *Exec) deferStmt(st *State, s *ast.DeferStmt, k func(*State)) {
 	call := s.Call
 	if lit, ok := unparen(call.Fun).(*ast.FuncLit); ok && len(call.Args) == 0 {
 		clo := &Closure{Lit: lit, Pkg: ex.pkg}
+		if ord, ok := ex.cloOrd[lit]; ok && ex.fc != nil {
+			if ls := ex.fc.Closures[ord]; ls != nil && len(ls.Ensures) > 0 && !ex.cloVerified[lit] {
+				ex.cloVerified[lit] = true
+				ex.cloHit[ord] = true
+				ex.verifyClosure(st.clone(), clo, ord, ls)
+			}
+		}
 		st.pushDefer(func(st *State, k2 func(*State)) {
 			ex.callClosure(st, clo, nil, func(st2 *State, _ []Val) { k2(st2) })
 		})
